@@ -86,7 +86,15 @@ def lib_call(r, sub, fn, *args, refusals=(), **kw):
         return False, None
 
 
+class CaseTimeout(BaseException):
+    """raised by the SIGALRM handler (BaseException: not swallowed by the
+    library's or the harness' 'except Exception')"""
+
+
 class Collector:
+    case_timeout = None
+    timeouts = 0
+
     def __init__(self, prop, tier, budget_s):
         self.prop = prop
         self.tier = tier
@@ -107,6 +115,23 @@ class Collector:
     def out_of_time(self):
         return time.time() > self.deadline
 
+    def _timed(self, run_case, case):
+        """run one case under an optional wall clock cap (SIGALRM)"""
+        limit = self.case_timeout
+        if not limit:
+            return run_case(case)
+        import signal
+
+        def handler(signum, frame):
+            raise CaseTimeout()
+        old_h = signal.signal(signal.SIGALRM, handler)
+        signal.alarm(int(limit))
+        try:
+            return run_case(case)
+        finally:
+            signal.alarm(0)
+            signal.signal(signal.SIGALRM, old_h)
+
     def run(self, case, run_case):
         from .model import HarnessError, ModelResample
         from .gen import BadCase
@@ -114,7 +139,11 @@ class Collector:
             self.skipped_budget += 1
             return None
         try:
-            r = run_case(case)
+            r = self._timed(run_case, case)
+        except CaseTimeout:
+            # inconclusive, never a violation
+            self.timeouts += 1
+            return None
         except BadCase:
             self.invalid += 1
             return None
@@ -174,6 +203,7 @@ class Collector:
             "nontrivial": sorted(self.nontrivial), "samples": self.samples,
             "classes": dict(self.classes), "refused": dict(self.refused),
             "excluded": dict(self.excluded), "resampled": self.resampled,
+            "timeouts": self.timeouts,
             "failures": self.failures, "harness": self.harness[:5],
             "known": dict(self.known),
         }
@@ -279,6 +309,7 @@ def run_shard(args):
     mod = importlib.import_module(f"vf.props.{args.id.lower()}")
     budget = float(args.budget)
     col = Collector(args.id, args.tier, budget)
+    col.case_timeout = getattr(mod, "CASE_TIMEOUT", {}).get(args.tier)
     t0 = time.time()
     try:
         extra = mod.run_shard(col, args.shard, args.nshards, args.seed,
@@ -399,7 +430,7 @@ def parent(args):
               "nontrivial": set(), "samples": [], "classes": Counter(),
               "refused": Counter(), "excluded": Counter(), "resampled": 0,
               "failures": {}, "harness": [], "known": Counter(),
-              "extra": []}
+              "extra": [], "timeouts": 0}
     hard_timeout = budget * 3 + 600
     for p, out, log in procs:
         try:
@@ -425,6 +456,7 @@ def parent(args):
         merged["excluded"].update(d["excluded"])
         merged["known"].update(d["known"])
         merged["resampled"] += d["resampled"]
+        merged["timeouts"] += d.get("timeouts", 0)
         merged["harness"].extend(d["harness"])
         if d.get("extra") is not None:
             merged["extra"].append(d["extra"])
@@ -483,6 +515,7 @@ def parent(args):
         "resampled_models": merged["resampled"],
         "invalid_cases": merged["invalid"],
         "skipped_out_of_budget": merged["skipped_budget"],
+        "case_timeouts_inconclusive": merged["timeouts"],
         "replayed_regressions": regress,
         "known_finding_hits": n_known_hits + sum(merged["known"].values()),
         "shards": nsh,
